@@ -181,10 +181,25 @@ func c17ExprSlots(n *c17N, inTemplate bool) (slots []**c17N, hoist bool, childTe
 			}
 			return slots, false, childTemplate
 		}
-		for i := 0; i < len(n.L); i++ {
-			if n.L[i].IsL {
-				add(&n.L[i], true)
+		// A bracket list inside a template is a binding list / binding / cond
+		// clause, not an expression: hoisted in place of its form it would become
+		// quoted DATA made of code.  Its parts are reached through it.
+		var addT func(p **c17N)
+		addT = func(p **c17N) {
+			x := *p
+			if !x.IsL {
+				return
 			}
+			if x.Br {
+				for i := range x.L {
+					addT(&x.L[i])
+				}
+				return
+			}
+			add(p, true)
+		}
+		for i := 0; i < len(n.L); i++ {
+			addT(&n.L[i])
 		}
 		return slots, true, childTemplate
 	}
@@ -858,6 +873,117 @@ type c17Sig struct {
 	heads     map[string]bool
 	flags     map[string]bool
 	defsByPkg map[string]map[string]bool
+	// tmpl: what the quasiquote templates of the top-level defmacros name
+	// (c17TemplateShape); kept apart from flags so that keyPart is unchanged
+	tmpl map[string]bool
+}
+
+// c17TemplateShape describes the symbols that the quasiquote templates of the
+// session's top-level defmacros mention outside unquote:
+//
+//	spells-macro-local        a template symbol is spelled like a parameter of the macro or a
+//	                          local bound by the macro's body (the shape of defect D5)
+//	names-global              a template symbol is spelled like a package-level definition of the session
+//	names-global-of-another-package   ... that the macro's own package does not define
+//	names-global-in-bracket-list      ... and the occurrence lies inside a [...] list
+func c17TemplateShape(c *c17Case, defsByPkg map[string]map[string]bool) map[string]bool {
+	out := map[string]bool{}
+	type occ struct {
+		name, pkg string
+		br        bool
+	}
+	var occs []occ
+	var tmplWalk func(n *c17N, pkg string, br bool, locals map[string]bool)
+	tmplWalk = func(n *c17N, pkg string, br bool, locals map[string]bool) {
+		if n == nil {
+			return
+		}
+		if n.isAtom() {
+			if len(n.A) == 0 || n.A[0] == '"' || n.A[0] == ':' || n.A[0] == '&' || c17IsInt(n.A) || n.Q {
+				return
+			}
+			if p, _ := c17SplitQual(n.A); p != "" {
+				return
+			}
+			if locals[n.A] {
+				out["spells-macro-local"] = true
+				return
+			}
+			occs = append(occs, occ{n.A, pkg, br})
+			return
+		}
+		if n.Q {
+			return
+		}
+		if h := n.head(); !n.Br && (h == "unquote" || h == "unquote-splicing" || h == "quote") {
+			return
+		}
+		for _, x := range n.L {
+			tmplWalk(x, pkg, br || n.Br, locals)
+		}
+	}
+	var bodyWalk func(n *c17N, pkg string, locals map[string]bool)
+	bodyWalk = func(n *c17N, pkg string, locals map[string]bool) {
+		if n == nil || !n.IsL || n.Q {
+			return
+		}
+		switch n.head() {
+		case "quasiquote":
+			if len(n.L) > 1 {
+				tmplWalk(n.L[1], pkg, false, locals)
+			}
+			return
+		case "let", "let*":
+			if len(n.L) > 1 && n.L[1].IsL {
+				for _, b := range n.L[1].L {
+					if b.IsL && len(b.L) > 0 && b.L[0].isAtom() {
+						locals[b.L[0].A] = true
+					}
+				}
+			}
+		}
+		for _, x := range n.L {
+			bodyWalk(x, pkg, locals)
+		}
+	}
+	for _, f := range c.Files {
+		pkg := "user"
+		for _, top := range f {
+			switch top.head() {
+			case "in-package":
+				if len(top.L) > 1 {
+					pkg = strings.Trim(top.L[1].A, "\"")
+				}
+			case "defmacro":
+				if len(top.L) > 3 && top.L[2].IsL {
+					locals := map[string]bool{}
+					for _, p := range top.L[2].L {
+						if p.isAtom() && !strings.HasPrefix(p.A, "&") {
+							locals[p.A] = true
+						}
+					}
+					// locals of the macro body are collected before the templates are read
+					for _, x := range top.L[3:] {
+						bodyWalk(x, pkg, locals)
+					}
+				}
+			}
+		}
+	}
+	for _, o := range occs {
+		pk := defsByPkg[o.name]
+		if len(pk) == 0 {
+			continue
+		}
+		out["names-global"] = true
+		if !pk[o.pkg] {
+			out["names-global-of-another-package"] = true
+		}
+		if o.br {
+			out["names-global-in-bracket-list"] = true
+		}
+	}
+	return out
 }
 
 func c17Signature(c *c17Case) *c17Sig {
@@ -1092,6 +1218,7 @@ func c17Signature(c *c17Case) *c17Sig {
 			}
 		}
 	}
+	s.tmpl = c17TemplateShape(c, s.defsByPkg)
 	return s
 }
 
@@ -1176,6 +1303,20 @@ func (s *c17Sig) family() string {
 		return "name-defined-twice-in-one-file"
 	case fl["name-defined-in-two-files-of-one-package"]:
 		return "name-defined-in-two-files-of-one-package"
+	case hd["defmacro"] && hd["quasiquote"] && !hd["macrolet"] && s.tmpl["names-global"] && !s.tmpl["spells-macro-local"]:
+		// A defmacro template that names package-level definitions and has NOT the
+		// shape of D5 (no template symbol is spelled like a parameter or local of the
+		// macro): the input class is where the named global lives and how the
+		// template writes the occurrence.  Asked before the export / use-package
+		// families: they are the incidental way the macro reaches its user.
+		fam := "defmacro-template-names-global"
+		if s.tmpl["names-global-of-another-package"] {
+			fam += "-of-another-package"
+		}
+		if s.tmpl["names-global-in-bracket-list"] {
+			fam += "-in-bracket-list"
+		}
+		return fam
 	case hd["export"] && hd["use-package"] && fl["builtin-name-rebound"]:
 		return "export+use-package+builtin-name"
 	case hd["export"] && hd["use-package"] && fl["multi-file"]:
